@@ -19,7 +19,8 @@ from .common import (
 )
 from .dest import REQ_INV, SELF, pdu_wf, mode
 from .source import _routed_to_dest
-from stubs.cfdp import PDU_CLASSES
+from stubs.cfdp import PDU_CLASSES, cfg_known
+from pyvc.values import to_z3_int
 
 CONTRACTS = []
 IDLE = CfdpState.IDLE
@@ -66,6 +67,7 @@ CONTRACTS.append(Contract(
             Implies_(And_(ne(o.self.states.state, IDLE), eq(mode(o.self), UNACK)), o.packet.cls not in (AckPdu, PromptPdu))),
             ("C10", "C20")),
         Clause("C10.silent", lambda o, n, r: len([e for e in n.trace if e["kind"] != "vfs"]) == 0, ("C10",)),
+        Clause("C10.sender_has_a_remote_configuration", lambda o, n, r: cfg_known(to_z3_int(o.packet.pdu_conf.source_entity_id.value)), ("C10",)),
     ],
     raises=[RaiseClause("C20.wrong_handler_only_for_other_side", X.InvalidPduForDestHandler,
                         when=lambda o: Not_(_routed_to_dest(o.packet)), props=("C20", "C10"), modifies=[])]
